@@ -51,11 +51,21 @@ func vC01Bare(L int) {
 	in := vRogueScript("s", L)
 	cut := vChoice("cut", L+1) // steps [0,cut) played inside subscribe, the rest afterwards
 	mode := vChoice("mode", 3)
+	boom := vChoice("boom", 3)
 	var dest Observer[int64]
 	subscribe := func(ctx context.Context, d Observer[int64]) Teardown {
 		dest = d
 		for _, st := range in[:cut] {
 			vEmit(d, ctx, st)
+		}
+		switch boom {
+		case 1:
+			// the subscribe function panics after what it emitted (possibly a terminal): the recovered
+			// panic may become the stream's Error only through the subscriber's terminal-once guard
+			panic(vErrB)
+		case 2:
+			// a teardown that panics; it runs at once when the script already ended the stream
+			return func() { panic(vErrB) }
 		}
 		return nil
 	}
@@ -75,7 +85,15 @@ func vC01Bare(L int) {
 		obs.SubscribeWithContext(context.Background(), vObs(rec, vFlatInt))
 	}
 	for _, st := range in[cut:] {
-		vEmit(dest, context.Background(), st)
+		func() {
+			// the panic of the teardown is re-raised to whoever closes the subscription (C03): here the producer
+			defer func() {
+				if p := recover(); p != nil {
+					vAssert(boom == 2, "bare: a notification call panicked although no teardown panics")
+				}
+			}()
+			vEmit(dest, context.Background(), st)
+		}()
 	}
 	vCheckGrammar("bare", rec)
 	vAssert(len(rec.evs)+hooks.dropped >= L, "bare: a notification was neither delivered nor surfaced through the dropped-notification hook")
